@@ -102,7 +102,7 @@ class Mirror:
         return [], True
 
 
-def gen_history(rng, length):
+def gen_history(rng, length, template=None):
     m = Mirror()
     ops = []
 
@@ -157,6 +157,10 @@ def gen_history(rng, length):
             op = ["ODrop", rng.choice(h)]
         m.apply(op)
         ops.append(op)
+    if template:
+        for op in cycle_template(rng, m, template):
+            m.apply(op)
+            ops.append(op)
     # let go of everything: the end state shows leaks and missing destructor calls
     for i in range(len(m.kind)):
         while m.roots[i] > 0:
@@ -165,11 +169,56 @@ def gen_history(rng, length):
     return ops
 
 
+TEMPLATES = ["handle", "inner-gc", "frombuf", "handle-live-dtor", "inner-gc-released", "two-wrappers"]
+
+
+def cycle_template(rng, m, name):
+    """reference cycles whose only way round goes through the origobj edge of an ffi.gc wrapper W
+    (W.origobj -> ... -> Python object y -> W), with W's destructor removed by gc(W, None), still
+    installed, or W released: the collector must see the edge W -> origobj whatever the state of
+    the destructor slot (cdatagcp_traverse)"""
+    base = len(m.kind)
+    y = base
+    ops = [["ONewPy", m.fresh_addr()]]
+    if name in ("handle", "handle-live-dtor"):
+        h, w = base + 1, base + 2
+        ops += [["ONewHandle", y, m.fresh_addr()], ["OGc", h, m.fresh_addr(), None]]
+        if name == "handle":
+            ops.append(["OGcNone", w])
+        ops.append(["OSetRef", y, w])
+    elif name in ("inner-gc", "inner-gc-released"):
+        n, inner, w = base + 1, base + 2, base + 3
+        ops += [["ONew", m.fresh_addr()], ["OGc", n, m.fresh_addr(), y], ["OGc", inner, m.fresh_addr(), None]]
+        ops.append(["OGcNone", w] if name == "inner-gc" else ["ORelease", w, rng.random() < 0.5])
+        ops.append(["OSetRef", y, w])
+    elif name == "frombuf":
+        f, w = base + 1, base + 2
+        ops += [["OFromBuffer", y, m.fresh_addr()], ["OGc", f, m.fresh_addr(), None], ["OGcNone", w],
+                ["OSetRef", y, w]]
+    elif name == "two-wrappers":
+        # W2 -> W1 -> handle -> y -> W2, both destructors removed
+        h, w1, w2 = base + 1, base + 2, base + 3
+        ops += [["ONewHandle", y, m.fresh_addr()], ["OGc", h, m.fresh_addr(), None], ["OGc", w1, m.fresh_addr(), None],
+                ["OGcNone", w1], ["OGcNone", w2], ["OSetRef", y, w2]]
+    ncreated = len([o for o in ops if o[0] in ("ONewPy", "ONew", "ONewHandle", "OGc", "OFromBuffer")])
+    members = list(range(base, base + ncreated))
+    rng.shuffle(members)
+    for i in members:
+        if rng.random() < 0.2:
+            ops += [["OHold", i], ["ODrop", i]]
+        ops.append(["ODrop", i])
+    return ops
+
+
 def generate(ctx):
     rng = ctx.rng
     out = []
-    for i in range(ctx.n(160, 4000)):
+    for i in range(ctx.n(150, 600)):
         out.append(dict(kind="history", ops=gen_history(rng, rng.choice([4, 8, 12, 16, 24]))))
+    # directed: cycles through the origobj edge of a wrapper (after a random prefix)
+    for i in range(ctx.n(36, 180)):
+        out.append(dict(kind="history", template=TEMPLATES[i % len(TEMPLATES)],
+                        ops=gen_history(rng, rng.choice([0, 0, 2, 5, 9]), TEMPLATES[i % len(TEMPLATES)])))
     return out
 
 
@@ -306,7 +355,7 @@ def shrink(ctx, case, failing):
 def evaluate(ctx, cases, asan=None):
     if not cases:
         return
-    asan = ctx.thorough if asan is None else asan
+    asan = bool(asan)
     s = ctx.scratch(asan=asan)
     out, p = s.run_worker("c21_worker.py", dict(histories=[c["ops"] for c in cases]), timeout=3000)
     if out is None:
@@ -327,6 +376,7 @@ def evaluate(ctx, cases, asan=None):
         bad = check_history(ops, r)
         kinds = sorted(set(o[0] for o in ops))
         ctx.hist("length", len(ops))
+        ctx.hist("template", c.get("template", "random"))
         for o in ops:
             ctx.hist("op", o[0])
         if any(o[0] in ("OGc", "OAllocNew", "OAllocNewStruct", "OFromBuffer", "ONewHandle") for o in ops):
@@ -376,7 +426,12 @@ def run(ctx):
         "runtime hypothesis R2: an allocation never returns the address of a live object",
         "runtime hypothesis R3: destructors neither resurrect nor use the objects being freed",
         "gc.collect() after every step makes CPython free exactly the unreachable set (Model.unreachable)"]
-    evaluate(ctx, generate(ctx))
+    cases = generate(ctx)
+    evaluate(ctx, cases)
+    if ctx.thorough:
+        # a part of the same histories under AddressSanitizer (use-after-free of struct memory,
+        # handles, buffers)
+        evaluate(ctx, cases[:60] + cases[-60:], asan=True)
 
 
 MANIFEST = dict(
